@@ -42,4 +42,3 @@ func writeTables(c *vh.Ctx) {
 	sb.WriteString("\n(* SubjectPublicKeyInfo of each key of the harness's fixed pool *)\nDefinition spki_table : list (list N) :=\n  [" + strings.Join(sp, ";\n   ") + "].\n")
 	c.WriteGen("C04_gen.v", sb.String())
 }
-
